@@ -389,6 +389,61 @@ var confirmedUnreachable = map[string]string{
 	`ast|ast.Walk|"Unknown ast node %T, %#v"`: "default arm of the type switch over all node types (C03.R2 checks coverage)",
 }
 
+// movedPanic: the panic sits in a function introduced since the table was confirmed, and the table has a site
+// with the same argument in a function of the package that calls this helper (directly or through other
+// new helpers): the site was moved by extracting the helper, the argument for its unreachability goes with it.
+func movedPanic(c *Ctx, p *packages.Package, rel string, fd *ast.FuncDecl, label string) (string, string) {
+	if !isNewFunc(declID(p, fd)) {
+		return "", ""
+	}
+	self, _ := p.TypesInfo.Defs[fd.Name].(*types.Func)
+	if self == nil {
+		return "", ""
+	}
+	var calls func(from *ast.FuncDecl, depth int) bool
+	calls = func(from *ast.FuncDecl, depth int) bool {
+		hit := false
+		ast.Inspect(from.Body, func(n ast.Node) bool {
+			call, ok := n.(*ast.CallExpr)
+			if !ok || hit {
+				return !hit
+			}
+			cal := Callee(p.TypesInfo, call)
+			if cal == nil || cal.Pkg() != p.Types {
+				return true
+			}
+			if cal == self {
+				hit = true
+			} else if depth > 0 && isNewFunc(FuncID(cal)) {
+				if d := c.Decl(cal); d != nil && d.Body != nil && calls(d, depth-1) {
+					hit = true
+				}
+			}
+			return !hit
+		})
+		return hit
+	}
+	prefix, suffix := rel+"|", "|"+label
+	var keys []string
+	for k := range confirmedUnreachable {
+		if strings.HasPrefix(k, prefix) && strings.HasSuffix(k, suffix) {
+			keys = append(keys, k)
+		}
+	}
+	sort.Strings(keys)
+	for _, k := range keys {
+		fid := strings.TrimSuffix(strings.TrimPrefix(k, prefix), suffix)
+		for _, f := range c.Files(p) {
+			for _, d := range f.Decls {
+				if od, ok := d.(*ast.FuncDecl); ok && od.Body != nil && declID(p, od) == fid && calls(od, 2) {
+					return fid, confirmedUnreachable[k]
+				}
+			}
+		}
+	}
+	return "", ""
+}
+
 type panicSite struct {
 	pkg   *packages.Package
 	fd    *ast.FuncDecl
@@ -445,6 +500,76 @@ func defaultArmExhaustive(c *Ctx, p *packages.Package, fd *ast.FuncDecl, call *a
 	info := p.TypesInfo
 	var found bool
 	var why string
+	// the statement after a switch without default whose arms all leave the function: the same as its default arm
+	terminates := func(body []ast.Stmt) bool {
+		if len(body) == 0 {
+			return false
+		}
+		switch l := body[len(body)-1].(type) {
+		case *ast.ReturnStmt:
+			return true
+		case *ast.ExprStmt:
+			if cl, ok := l.X.(*ast.CallExpr); ok && isBuiltinCall(info, cl, "panic") {
+				return true
+			}
+		}
+		return false
+	}
+	ast.Inspect(fd.Body, func(n ast.Node) bool {
+		blk, ok := n.(*ast.BlockStmt)
+		if !ok || found {
+			return !found
+		}
+		for i := 1; i < len(blk.List); i++ {
+			es, ok := blk.List[i].(*ast.ExprStmt)
+			if !ok || es.X != ast.Expr(call) {
+				continue
+			}
+			sw, ok := blk.List[i-1].(*ast.SwitchStmt)
+			if !ok || sw.Tag == nil {
+				continue
+			}
+			tv, ok := info.Types[sw.Tag]
+			if !ok {
+				continue
+			}
+			nt, ok := tv.Type.(*types.Named)
+			if !ok || c.Pkgs[nt.Obj().Pkg().Path()] == nil {
+				continue
+			}
+			cased := map[string]bool{}
+			all := true
+			for _, cl := range sw.Body.List {
+				cc := cl.(*ast.CaseClause)
+				if cc.List == nil || !terminates(cc.Body) {
+					all = false
+				}
+				for _, e := range cc.List {
+					cased[constName(info, e)] = true
+				}
+			}
+			if !all {
+				continue
+			}
+			decl := c.Pkgs[nt.Obj().Pkg().Path()]
+			total, missing := 0, 0
+			for _, nm := range decl.Types.Scope().Names() {
+				if k, ok := decl.Types.Scope().Lookup(nm).(*types.Const); ok && types.Identical(k.Type(), nt) {
+					total++
+					if !cased[nm] {
+						missing++
+					}
+				}
+			}
+			if total > 0 && missing == 0 {
+				found, why = true, fmt.Sprintf("follows a switch whose arms all leave the function and which covers all %d constants of %s", total, namedTypeName(nt))
+			}
+		}
+		return !found
+	})
+	if found {
+		return true, why
+	}
 	ast.Inspect(fd.Body, func(n ast.Node) bool {
 		switch sw := n.(type) {
 		case *ast.SwitchStmt:
@@ -748,6 +873,8 @@ func runC11R2(c *Ctx, r *Rep) {
 							r.ok(key, call.Pos(), "(c) unreachable: %s", w)
 						} else if reason, ok := confirmedUnreachable[fmt.Sprintf("%s|%s|%s", rel, id, label)]; ok {
 							r.okTrivial(key, call.Pos(), "(c) confirmed unreachable: %s", reason)
+						} else if from, reason := movedPanic(c, p, rel, fd, label); from != "" {
+							r.okTrivial(key, call.Pos(), "(c) confirmed unreachable in %s, from which this helper was extracted: %s", from, reason)
 						} else {
 							extra := ""
 							if w != "" {
